@@ -176,6 +176,12 @@ func (g *c09Gen) callSite(dir string) []*mj.Node {
 	ctx := func() *mj.Expr {
 		if g.n(0, 1, "withctx") == 0 {
 			g.labels["explicit-context"] = true
+			if g.n(0, 3, "nilctx") == 0 {
+				// a context that is given but has no value: it is still the context, not "none given"
+				g.labels["explicit-context-without-value"] = true
+				g.p.Vars["nomap"] = mj.Recipe{T: "nilmap"}
+				return mj.Var("nomap")
+			}
 			return mj.Str(g.id("ctx"))
 		}
 		return nil
